@@ -58,6 +58,8 @@ type c10Case struct {
 	ArmPoint string `json:"arm_point,omitempty"`
 	ArmSkip  int    `json:"arm_skip,omitempty"`
 	ArmD     int64  `json:"arm_d,omitempty"`
+	// Listeners: Serve was given that many more (idle) listeners
+	Listeners int `json:"listeners,omitempty"`
 }
 
 func c10Spec(i int, p c10Peer) world.PeerSpec {
@@ -174,6 +176,7 @@ func c10Prop(t *testing.T, r *hx.Run, sub string) func(c c10Case) hx.Verdict {
 					return
 				}
 			}
+			w.ExtraListeners(c.Listeners)
 			w.Serve()
 			w.Settle()
 			// park every peer
@@ -669,6 +672,7 @@ var c10Parks = []string{"idle-due", "active-due", "twins-in", "opensent-in-parti
 
 func genC10(rt *rapid.T) c10Case {
 	c := c10Case{API: pick(rt, "api", "close", "close", "del", "del", "del-add", "liserr")}
+	c.Listeners = pick(rt, "listeners", 0, 0, 1, 2)
 	n := rapid.IntRange(1, 3).Draw(rt, "npeers")
 	for i := 0; i < n; i++ {
 		p := c10Peer{Park: c10Parks[rapid.IntRange(0, len(c10Parks)-1).Draw(rt, "park")], Passive: rapid.Bool().Draw(rt, "passive"),
